@@ -111,6 +111,7 @@ type Machine struct {
 	atomicVals map[*Value]Value
 	syncMaps  map[*Value]*Map
 	digests   map[*Value]*[]*sym.Term
+	i53ok     map[int]bool
 }
 
 type ufApp struct {
@@ -165,6 +166,7 @@ func (m *Machine) resetPath(prefix []Decision) {
 	m.atomicVals = map[*Value]Value{}
 	m.syncMaps = map[*Value]*Map{}
 	m.digests = nil
+	m.i53ok = nil
 }
 
 func (m *Machine) freshName(prefix string) string {
